@@ -649,6 +649,79 @@ func instloopStart(t *tr, en *packages.Package) string {
 	b.WriteString("/-- regenerated from `core/plugin/constructor.go` `(*pluginConstructor).NewFactory`: of `getMaybeConf()` (decode the\nplugin's config from the configuration data) and `newPlugin.Call(…)` (the registered constructor), the ones the factory\nperforms at EVERY call (nested function literals not entered); sorted -/\n")
 	b.WriteString("def factoryPerCall : List String := " + q(perCall) + "\n\n")
 	b.WriteString(instloopCallback(t, more["github.com/yandex/pandora/core/coreutil"]))
+	b.WriteString(instloopEngineRun(t, en))
+	return b.String()
+}
+
+// instloopEngineRun: (*Engine).Run — the loop that awaits the pools: its header (loop variable and receiver normalised),
+// every `return` inside it, and the statement after it.
+func instloopEngineRun(t *tr, en *packages.Package) string {
+	var b strings.Builder
+	header, after := "?", "?"
+	var rets []string
+	if fd := instloopFindMethod(en, "Engine", "Run"); fd != nil && len(fd.Recv.List[0].Names) == 1 {
+		w := &instloopW{t: t, pkg: en, recv: fd.Recv.List[0].Names[0].Name}
+		var loop *ast.ForStmt
+		at := -1
+		for k, st := range fd.Body.List {
+			if fs, ok := st.(*ast.ForStmt); ok {
+				loop, at = fs, k
+			}
+		}
+		if loop != nil && loop.Init != nil && loop.Cond != nil && loop.Post != nil {
+			iv := ""
+			if as, ok := loop.Init.(*ast.AssignStmt); ok && len(as.Lhs) == 1 {
+				iv = w.src(as.Lhs[0])
+			}
+			norm := func(x string) string {
+				x = strings.ReplaceAll(x, w.recv+".", "$.")
+				if iv != "" {
+					var o []string
+					for _, f := range strings.Fields(x) {
+						if f == iv {
+							f = "$i"
+						} else if f == iv+"++" {
+							f = "$i++"
+						}
+						o = append(o, f)
+					}
+					x = strings.Join(o, " ")
+				}
+				return x
+			}
+			header = "for " + norm(w.src(loop.Init)) + "; " + norm(w.src(loop.Cond)) + "; " + norm(w.src(loop.Post))
+			ast.Inspect(loop.Body, func(n ast.Node) bool {
+				switch v := n.(type) {
+				case *ast.FuncLit:
+					return false
+				case *ast.ReturnStmt:
+					rets = append(rets, w.src(v))
+				}
+				return true
+			})
+			sort.Strings(rets)
+			if at+1 < len(fd.Body.List) {
+				after = w.src(fd.Body.List[at+1])
+			}
+		} else {
+			w.fail(fd, "Engine.Run shape: a three-clause for loop over the pools expected")
+		}
+	} else {
+		t.errs = append(t.errs, "method (*Engine).Run not found")
+	}
+	q := func(l []string) string {
+		var o []string
+		for _, x := range l {
+			o = append(o, instloopStr(x))
+		}
+		return "[" + strings.Join(o, ",\n  ") + "]"
+	}
+	b.WriteString("/-- regenerated from `core/engine/engine.go` `(*Engine).Run`: the header of the loop that awaits the pool results -/\n")
+	b.WriteString("def engineRunLoop : String := " + instloopStr(header) + "\n\n")
+	b.WriteString("/-- regenerated from `(*Engine).Run`: every `return` inside that loop; sorted -/\n")
+	b.WriteString("def engineRunReturnsInLoop : List String := " + q(rets) + "\n\n")
+	b.WriteString("/-- regenerated from `(*Engine).Run`: the statement after the loop -/\n")
+	b.WriteString("def engineRunAfterLoop : String := " + instloopStr(after) + "\n\n")
 	return b.String()
 }
 
